@@ -21,8 +21,18 @@ if pk:
 else:
     cmd.append("--workspace")
 env = dict(os.environ, CARGO_NET_OFFLINE="true")
-p = subprocess.run(cmd, cwd=tree, env=env, stdout=subprocess.PIPE, stderr=subprocess.STDOUT, text=True)
-junit = os.path.join(os.environ.get("CARGO_TARGET_DIR", os.path.join(tree, "target")), "nextest", "pb", "junit.xml")
+parse_only = os.environ.get("BASELINE_PARSE_ONLY")
+if not parse_only:
+    for j in (os.path.join(tree, "target", "nextest", "pb", "junit.xml"),):
+        if os.path.exists(j): os.remove(j)
+    p = subprocess.run(cmd, cwd=tree, env=env, stdout=subprocess.PIPE, stderr=subprocess.STDOUT, text=True)
+else:
+    class P: stdout = ""
+    p = P()
+# nextest keeps its store under <workspace>/target/nextest even when CARGO_TARGET_DIR points elsewhere
+junit = os.path.join(tree, "target", "nextest", "pb", "junit.xml")
+if not os.path.exists(junit):
+    junit = os.path.join(os.environ.get("CARGO_TARGET_DIR", os.path.join(tree, "target")), "nextest", "pb", "junit.xml")
 passed, failed = set(), set()
 try:
     root = ET.parse(junit).getroot()
@@ -41,6 +51,29 @@ if pk:
 else:
     scope = stable
 missing = sorted(scope - passed)
+# Under heavy machine load the compile-a-consumer-crate tests hit nextest's slow-timeout; give every
+# stable test that did not pass one more chance on its own before calling it a regression.
+if missing and len(missing) <= 60 and not os.environ.get("BASELINE_NO_RETRY"):
+    by_pkg = {}
+    for t in missing:
+        parts = t.split("::")
+        by_pkg.setdefault(parts[0], []).append(parts[-1])
+    still = set(missing)
+    for pkg, names in by_pkg.items():
+        rc = subprocess.run(["cargo", "nextest", "run", "--no-fail-fast", "--tool-config-file", "pb:/w/lib/nextest.toml",
+                             "--profile", "pb", "--test-threads", "4", "--offline", "-p", pkg] + sorted(set(names)),
+                            cwd=tree, env=env, stdout=subprocess.PIPE, stderr=subprocess.STDOUT, text=True)
+        try:
+            r2 = ET.parse(os.path.join(tree, "target", "nextest", "pb", "junit.xml")).getroot()
+        except Exception:
+            continue
+        for tc in r2.iter("testcase"):
+            tid = (tc.get("classname") or "") + "::" + (tc.get("name") or "")
+            ok = tc.find("failure") is None and tc.find("error") is None and tc.find("skipped") is None
+            if ok and tid in still:
+                still.discard(tid); passed.add(tid)
+    print(f"baseline: retried {len(missing)} not-passed stable tests on their own, {len(missing) - len(still)} passed on retry")
+    missing = sorted(still)
 print(f"baseline: ran={len(ran)} passed={len(passed)} failed={len(failed)} stable_in_scope={len(scope)} stable_not_passed={len(missing)}")
 for t in missing[:50]:
     print("  NOT-PASSED", t, "(failed)" if t in failed else "(not run)")
